@@ -30,8 +30,8 @@ Batch  == JsonDeserialize(IOEnv.TRACE_FILE)
 Events == Batch.events
 N      == Len(Events)
 
-VARIABLES i, cur, bad, cnt
-vars == <<i, cur, bad, cnt>>
+VARIABLES i, cur, bad, cnt, taint
+vars == <<i, cur, bad, cnt, taint>>
 
 Scaled(a, S)    == F!FxMulSmall(a, S)
 Snap(a, S)      == LET m == Scaled(a, S) IN m[1] + (IF m[2] >= 8192 THEN 1 ELSE 0)        \* nearest lattice point
@@ -85,12 +85,26 @@ LibFinder(e) == LET m == Post(e) IN
 \* the facets table of the result holds the facets of its cells
 LibFacets(e) == LET m == Post(e) IN
   e.lib.facets = <<>> \/ {PtsOf(m, e.lib.facets[f]) : f \in DOMAIN e.lib.facets} = GeoFacets(m)
+\* named deviation: MeshQuad1.element_finder() goes through to_meshtri(), whose facet lookup (mesh_quad_1.py:186-195)
+\* walks ONE shared iterator over the triangle mesh's facets for the sorted tagged facets - a named boundary that lists
+\* a facet twice (remove_duplicate_nodes leaves such an array when it merges two tagged copies of a facet) makes it
+\* raise StopIteration, so the finder of such a quadrilateral mesh cannot be built
+RepeatedFacetId(m) == \E j \in DOMAIN m.bnd : ~IsInjectiveSeq(m.bnd[j].ids)
+RepeatedIdBreaksFinder(e) == /\ Post(e).kind = "quad" /\ RepeatedFacetId(Post(e)) /\ e.lib.find # <<>>
+                             /\ \A k \in DOMAIN e.lib.find : e.lib.find[k] = 0
 LibClauses(e) ==
   IF e.lib.ok = 2 THEN [LibAnswers |-> FALSE]            \* the library raised when asked about its own (well-formed) result
   ELSE IF ~LibShape(e) THEN [LibAnswers |-> TRUE, LibWellFormed |-> FALSE]
-  ELSE [ LibAnswers |-> TRUE, LibWellFormed |-> TRUE, LibCentroids |-> LibCentroids(e), LibDetDF |-> LibDetDF(e),
-         LibMeasure |-> LibMeasure(e), LibFirstMoment |-> LibFirstMoment(e), LibFinder |-> LibFinder(e),
-         LibFacets |-> LibFacets(e) ]
+  ELSE LET finder == LibFinder(e)
+           devRep == ~finder /\ RepeatedIdBreaksFinder(e)
+       IN [ LibAnswers |-> TRUE, LibWellFormed |-> TRUE, LibCentroids |-> LibCentroids(e), LibDetDF |-> LibDetDF(e),
+            LibMeasure |-> LibMeasure(e), LibFirstMoment |-> LibFirstMoment(e), LibFinder |-> finder \/ devRep,
+            Deviation_RepeatedFacetIdBreaksQuadSplit |-> ~devRep,
+            LibFacets |-> LibFacets(e) ]
+\* after a named deviation the chain goes on with a mesh that is not what the operation should have produced (cells
+\* may overlap): the later events of the scenario are still judged relative to their operands, but not through the library
+DevNames == {"Deviation_CountsUsedVerticesNotStoredPoints", "Deviation_ExtrusionIgnoresLineCells",
+             "Deviation_RepeatedFacetIdBreaksQuadSplit"}
 
 \* the document the harness wrote has the shape this specification reads (evaluated first: a malformed event is a
 \* failure of the machinery, reported by name instead of a TLC evaluation error)
@@ -107,13 +121,13 @@ HarnessInputWellFormed(e) ==
   /\ \A j \in DOMAIN e.post : MeshFields \subseteq DOMAIN e.post[j] /\ (e.lat > 0 => "pfx" \in DOMAIN e.post[j])
   /\ e.err = "" => (e.op \in {"refine", "setup"} \/ (Len(e.pre) >= 1 /\ Len(e.post) >= 1))
 
-Clauses(e0, prev) ==
+Clauses(e0, prev, tainted) ==
   IF ~HarnessInputWellFormed(e0) THEN [HarnessInputWellFormed |-> FALSE]
   ELSE IF IsLat(e0) /\ ~CoordsOnLattice(e0) THEN [NoUnexpectedError |-> TRUE, CoordsOnLattice |-> FALSE]
   ELSE LET e    == IF IsLat(e0) THEN Exact(e0) ELSE e0
            surg == SurgeryClauses(e)
            \* judged through the library only when the raw arrays are well formed and not a named deviation
-           lib  == IF LibJudged(e) /\ "Valid" \in DOMAIN surg /\ e.op # "trace" THEN LibClauses(e) ELSE <<>>
+           lib  == IF ~tainted /\ LibJudged(e) /\ "Valid" \in DOMAIN surg /\ e.op # "trace" THEN LibClauses(e) ELSE <<>>
            base == surg @@ lib @@ (IF IsLat(e0) THEN [CoordsOnLattice |-> TRUE] ELSE <<>>)
        IN IF e.err = "" /\ e.pos > 1 /\ prev # <<>>
           THEN base @@ [PreStateMatches |-> e.self \in DOMAIN e.pre /\ e.pre[e.self] = prev] ELSE base
@@ -128,21 +142,23 @@ Bump(c, r) == [k \in DOMAIN c \cup DOMAIN r |->
 \* per operation: how often it was judged (evidence)
 OpCount(e) == IF HarnessInputWellFormed(e) /\ e.err = "" THEN [x \in {"op_" \o e.op} |-> TRUE] ELSE <<>>
 
-Init == i = 1 /\ cur = <<>> /\ bad = <<>> /\ cnt = <<>>
+Init == i = 1 /\ cur = <<>> /\ bad = <<>> /\ cnt = <<>> /\ taint = FALSE
 
 Step == /\ i <= N
         /\ LET e == Events[i]
-               r == Clauses(e, IF e.pos = 1 THEN <<>> ELSE cur)
+               tn == IF e.pos = 1 THEN FALSE ELSE taint
+               r == Clauses(e, IF e.pos = 1 THEN <<>> ELSE cur, tn)
            IN /\ bad' = bad \o [k \in 1..Cardinality(Failed(r)) |->
                                   [sid |-> e.sid, pos |-> e.pos, clause |-> SetToSeq(Failed(r))[k]]]
               /\ cnt' = Bump(Bump(cnt, r), OpCount(e))
               /\ cur' = Result(e)
+              /\ taint' = (tn \/ Failed(r) \cap DevNames # {})
         /\ i' = i + 1
 
 Finish == /\ i = N + 1
           /\ JsonSerialize(IOEnv.OUT_FILE, [consumed |-> N, bad |-> bad, cnt |-> cnt])
           /\ i' = N + 2
-          /\ UNCHANGED <<cur, bad, cnt>>
+          /\ UNCHANGED <<cur, bad, cnt, taint>>
 
 Next == Step \/ Finish
 Spec == Init /\ [][Next]_vars
